@@ -3,7 +3,7 @@ From Coq Require Import List Permutation String.
 From TS Require Import Model.Str Model.Outcome Model.Unicode Model.Syntax Model.Rename Model.Types Model.Parse Model.Reconcile Model.Collect Model.Lang.Common Model.MultiFile.
 From TS Require Model.Writer.
 From TS Require Import Spec.C14Spec.
-From TS Require Proofs.C14 Proofs.C14Front Proofs.C14Main Proofs.C14Imports Proofs.C14Witness.
+From TS Require Proofs.C14 Proofs.C14Front Proofs.C14Main Proofs.C14Imports Proofs.C14Order Proofs.C14Witness.
 Import ListNotations.
 Local Open Scope string_scope.
 
@@ -253,6 +253,19 @@ Theorem C14_imports_iteration_order_irrelevant :
     forall k n, In (k, n) (scoped_pairs (used_imports ct own l1)) <-> In (k, n) (scoped_pairs (used_imports ct own l2)).
 Proof. exact Proofs.C14Imports.used_imports_order_irrelevant. Qed.
 Print Assumptions C14_imports_iteration_order_irrelevant.
+
+(* ... and the same VALUE: the BTreeMap of BTreeSets that write_imports prints (keys in order, every set in order,
+   an entry with an empty set included) is equal for two lists with the same elements; so for every oracle ho
+   (oracle_ok: ho rearranges its argument) iterating the import set of a crate in the order ho gives the import
+   list of the identity order - the import statements are the same bytes. *)
+Theorem C14_import_list_order_irrelevant :
+  (forall (ct : crate_types) (own : str) (l1 l2 : list imported),
+     (forall x, In x l1 <-> In x l2) -> used_imports ct own l1 = used_imports ct own l2) /\
+  (forall (hc : crate_types -> crate_types) (cs : crates) (cn : str) (pd : parsed) (ho : list imported -> list imported),
+     Proofs.C14Front.oracle_ok ho ->
+     crate_imports hc cs cn (with_imports pd (ho (p_imports pd))) = crate_imports hc cs cn pd).
+Proof. split; [exact Proofs.C14Order.used_imports_order_irrelevant_eq|exact Proofs.C14Order.crate_imports_order_irrelevant]. Qed.
+Print Assumptions C14_import_list_order_irrelevant.
 
 (* ---------------------------------------------------------------- finding classes of the unchanged tree *)
 
